@@ -35,25 +35,26 @@ void h_flushListener(void)
 }
 
 /* ============================ sendDo ============================
+ * Pre-state values are read from the ghost mirror P0 (bound by the requires clause SD_BIND), not through __CPROVER_old.
  * Ghost keys are tied to the command: GSID is the id the command names, GLID the owner of that session.  S0 / L0 are the session and
  * listener objects those keys map to (valid objects in any case; whether the maps CONTAIN the keys is _sessions.has / _listeners.has). */
-#define S0 __CPROVER_old(self->_sessions.val)
-#define L0 __CPROVER_old(self->_listeners.val)
-#define SD_OPEN   (__CPROVER_old(self->_sessions.has) && !__CPROVER_old(self->_sessions.val->closed))
-#define SD_CLIENT (__CPROVER_old(self->_sessions.val->role) == Role_ClientConnected)
-#define SD_LST    (__CPROVER_old(self->_listeners.has))
-#define SD_P0     __CPROVER_old(sr->payload.p)
-#define SD_N0     __CPROVER_old(sr->payload.n)
-#define SD_PLEN0  __CPROVER_old(self->_sessions.val->plen)
-#define SD_PEER0_GB __CPROVER_old(self->_sessions.val->peer.b[GB])
+#define S0 (self->_sessions.val)
+#define L0 (self->_listeners.val)
+#define SD_OPEN   (P0.s_has && !P0.s_closed)
+#define SD_CLIENT (P0.s_role == Role_ClientConnected)
+#define SD_LST    (P0.l_has)
+#define SD_P0     P0.p
+#define SD_N0     P0.n
+#define SD_PLEN0  P0.s_plen
+#define SD_PEER0_GB P0.s_peer_gb
 #define SD_SENT   (G_tx_calls == 1)
 #define SD_ALIVE  (self->_sessions.has)                 /* the session was not closed (and destroyed) by this call */
 #define SD_EAGAIN (G_tx_ret < 0 && G_tx_errno == EAGAIN)
 #define SD_HARD   (G_tx_ret < 0 && G_tx_errno != EAGAIN)
-#define SD_CBSET  (__CPROVER_old(self->_cbs.onClose.set))
-#define SD_CLOSED_ONCE(WHY) (!SD_ALIVE && G_closeCb_calls == __CPROVER_old(G_closeCb_calls) + (SD_CBSET ? 1u : 0u) && (SD_CBSET ==> (G_closeCb_sid == GSID && G_closeCb_why == (WHY))))
-#define SD_LQ_OVER (__CPROVER_old(self->_listeners.val->wq.hi) + 1 - __CPROVER_old(self->_listeners.val->wq.lo) > self->_config.maxWriteQueue)
-#define SD_CQ_OVER (__CPROVER_old(self->_sessions.val->wq.hi) + 1 - __CPROVER_old(self->_sessions.val->wq.lo) > self->_config.maxWriteQueue)
+#define SD_CBSET  (P0.cbset)
+#define SD_CLOSED_ONCE(WHY) (!SD_ALIVE && G_closeCb_calls == P0.cb_calls + (SD_CBSET ? 1u : 0u) && (SD_CBSET ==> (G_closeCb_sid == GSID && G_closeCb_why == (WHY))))
+#define SD_LQ_OVER (P0.lq_hi + 1 - P0.lq_lo > self->_config.maxWriteQueue)
+#define SD_CQ_OVER (P0.cq_hi + 1 - P0.cq_lo > self->_config.maxWriteQueue)
 
 void UdpEngine_sendDo_contract(UdpEngine *self, SendReq *sr)
 __CPROVER_requires(IORA_TRUE && __CPROVER_is_fresh(self, sizeof(*self)) && __CPROVER_is_fresh(sr, sizeof(*sr)) && sr->payload.n <= INT_MAX_)
@@ -63,34 +64,36 @@ __CPROVER_requires(sr->sid == GSID && self->_sessions.val->id == GSID && self->_
 __CPROVER_requires(self->_sessions.val->plen <= sizeof(sockaddr_storage) && GB < sizeof(sockaddr_storage))
 __CPROVER_requires(self->_sessions.val->wq.lo <= self->_sessions.val->wq.hi && self->_sessions.val->wq.hi < (size_t)-1 && self->_listeners.val->wq.lo <= self->_listeners.val->wq.hi && self->_listeners.val->wq.hi < (size_t)-1)
 __CPROVER_requires(IORA_NO_LOCK_HELD(self) && TX_ZERO)
+/* ghost mirror of the pre-state (see pre.h) */
+__CPROVER_requires(SD_BIND)
 /* engine invariants needed by closeNow (see closenow_contract.h) */
 __CPROVER_requires((self->_peerIndex.has && self->_peerIndex.val == GSID) ==> (self->_sessions.has && self->_sessions.val->pkey == GPK && self->_sessions.val->role == Role_ServerPeer))
 __CPROVER_requires(self->_atomicStats.sessionsCurrent >= 1 && G_closeCb_calls < IORA_SAT && G_close_calls < IORA_SAT && G_delEpoll_calls < IORA_SAT)
 __CPROVER_assigns(self->_sessions.val->lastActivity, self->_sessions.val->lastWriteProgress, self->_sessions.val->wq, self->_sessions.val->wantWrite, self->_sessions.val->closed,
                   self->_listeners.val->wq, self->_listeners.val->wantWrite,
                   self->_atomicStats.bytesOut, self->_atomicStats.backpressureCloses, self->_atomicStats.closed, self->_atomicStats.sessionsCurrent,
-                  self->_peerIndex, self->_sessions.has, self->_sessions.val, self->_tags, self->_cbMutex.held, self->_sessionRwMutex.held,
+                  self->_peerIndex, self->_sessions.has, self->_tags, self->_cbMutex.held, self->_sessionRwMutex.held,
                   TX_GHOSTS, EPOLL_GHOSTS, CLOSE_GHOSTS)
 __CPROVER_frees(self->_sessions.val)
-/* SD0 unknown or closed session: nothing is sent, queued or notified */ __CPROVER_ensures(!SD_OPEN ==> (G_tx_calls == 0 && G_closeCb_calls == __CPROVER_old(G_closeCb_calls) && L0->wq.hi == __CPROVER_old(self->_listeners.val->wq.hi) && L0->wq.lo == __CPROVER_old(self->_listeners.val->wq.lo)))
+/* SD0 unknown or closed session: nothing is sent, queued or notified */ __CPROVER_ensures(!SD_OPEN ==> (G_tx_calls == 0 && G_closeCb_calls == P0.cb_calls && L0->wq.hi == P0.lq_hi && L0->wq.lo == P0.lq_lo))
 /* SD1a at most one datagram per send command */ __CPROVER_ensures(G_tx_calls <= 1)
 /* SD1b an open session with a socket gets exactly one attempt */ __CPROVER_ensures((SD_OPEN && (SD_CLIENT || SD_LST)) ==> SD_SENT)
 /* SD1c listener gone: no attempt, the session is closed once */ __CPROVER_ensures((SD_OPEN && !SD_CLIENT && !SD_LST) ==> (G_tx_calls == 0 && SD_CLOSED_ONCE(TransportError_Unknown)))
 /* SD2 byte-identical: the complete payload, in one piece */ __CPROVER_ensures(SD_SENT ==> (G_tx_p == SD_P0 && G_tx_n >= 0 && (size_t)G_tx_n == SD_N0 && G_tx_flags == MSG_NOSIGNAL))
-/* SD3c connected client: on the session's own connected socket */ __CPROVER_ensures((SD_SENT && SD_CLIENT) ==> (!G_tx_is_sendto && G_tx_fd == __CPROVER_old(self->_sessions.val->fd)))
-/* SD3l listener-side session: through the owner listener's socket, addressed to THIS session's peer (length and every byte GB) */ __CPROVER_ensures((SD_SENT && !SD_CLIENT) ==> (G_tx_is_sendto && G_tx_fd == __CPROVER_old(self->_listeners.val->fd) && G_tx_tolen == SD_PLEN0 && G_tx_to_gb == (GB < SD_PLEN0 ? SD_PEER0_GB : 0)))
-/* SD4 taken by the kernel: nothing queued, nobody closed */ __CPROVER_ensures((SD_SENT && G_tx_ret >= 0) ==> (SD_ALIVE && S0->wq.hi == __CPROVER_old(self->_sessions.val->wq.hi) && L0->wq.hi == __CPROVER_old(self->_listeners.val->wq.hi) && G_closeCb_calls == __CPROVER_old(G_closeCb_calls)))
-/* SD5a EAGAIN on a listener: queued as exactly ONE element */ __CPROVER_ensures((SD_SENT && !SD_CLIENT && SD_EAGAIN) ==> L0->wq.hi == __CPROVER_old(self->_listeners.val->wq.hi) + 1)
-/* SD5b that element is the whole payload with this session's destination (bytes beyond plen are zero) */ __CPROVER_ensures((SD_SENT && !SD_CLIENT && SD_EAGAIN && GQ == __CPROVER_old(self->_listeners.val->wq.hi)) ==> (L0->wq.w.payload.p == SD_P0 && L0->wq.w.payload.n == SD_N0 && L0->wq.w.toLen == SD_PLEN0 && L0->wq.w.to.b[GB] == (GB < SD_PLEN0 ? SD_PEER0_GB : 0)))
-/* SD5c every other queued datagram is untouched (never merged) */ __CPROVER_ensures((GQ != __CPROVER_old(self->_listeners.val->wq.hi) || !(SD_SENT && !SD_CLIENT && SD_EAGAIN)) ==> (L0->wq.w.payload.p == __CPROVER_old(self->_listeners.val->wq.w.payload.p) && L0->wq.w.payload.n == __CPROVER_old(self->_listeners.val->wq.w.payload.n) && L0->wq.w.toLen == __CPROVER_old(self->_listeners.val->wq.w.toLen) && L0->wq.w.to.b[GB] == __CPROVER_old(self->_listeners.val->wq.w.to.b[GB])))
-/* SD5d overflow policy: close the sender once (closeOnBackpressure) or drop the OLDEST datagram; otherwise nothing leaves the queue */ __CPROVER_ensures((SD_SENT && !SD_CLIENT && SD_EAGAIN) ==> (SD_LQ_OVER ? (self->_config.closeOnBackpressure ? (SD_CLOSED_ONCE(TransportError_WriteBackpressure) && L0->wq.lo == __CPROVER_old(self->_listeners.val->wq.lo)) : (SD_ALIVE && L0->wq.lo == __CPROVER_old(self->_listeners.val->wq.lo) + 1)) : (SD_ALIVE && L0->wq.lo == __CPROVER_old(self->_listeners.val->wq.lo))))
+/* SD3c connected client: on the session's own connected socket */ __CPROVER_ensures((SD_SENT && SD_CLIENT) ==> (!G_tx_is_sendto && G_tx_fd == P0.s_fd))
+/* SD3l listener-side session: through the owner listener's socket, addressed to THIS session's peer (length and every byte GB) */ __CPROVER_ensures((SD_SENT && !SD_CLIENT) ==> (G_tx_is_sendto && G_tx_fd == P0.l_fd && G_tx_tolen == SD_PLEN0 && G_tx_to_gb == (GB < SD_PLEN0 ? SD_PEER0_GB : 0)))
+/* SD4 taken by the kernel: nothing queued, nobody closed */ __CPROVER_ensures((SD_SENT && G_tx_ret >= 0) ==> (SD_ALIVE && S0->wq.hi == P0.cq_hi && L0->wq.hi == P0.lq_hi && G_closeCb_calls == P0.cb_calls))
+/* SD5a EAGAIN on a listener: queued as exactly ONE element */ __CPROVER_ensures((SD_SENT && !SD_CLIENT && SD_EAGAIN) ==> L0->wq.hi == P0.lq_hi + 1)
+/* SD5b that element is the whole payload with this session's destination (bytes beyond plen are zero) */ __CPROVER_ensures((SD_SENT && !SD_CLIENT && SD_EAGAIN && GQ == P0.lq_hi) ==> (L0->wq.w.payload.p == SD_P0 && L0->wq.w.payload.n == SD_N0 && L0->wq.w.toLen == SD_PLEN0 && L0->wq.w.to.b[GB] == (GB < SD_PLEN0 ? SD_PEER0_GB : 0)))
+/* SD5c every other queued datagram is untouched (never merged) */ __CPROVER_ensures((GQ != P0.lq_hi || !(SD_SENT && !SD_CLIENT && SD_EAGAIN)) ==> (L0->wq.w.payload.p == P0.lq_w_p && L0->wq.w.payload.n == P0.lq_w_n && L0->wq.w.toLen == P0.lq_w_tolen && L0->wq.w.to.b[GB] == P0.lq_w_to_gb))
+/* SD5d overflow policy: close the sender once (closeOnBackpressure) or drop the OLDEST datagram; otherwise nothing leaves the queue */ __CPROVER_ensures((SD_SENT && !SD_CLIENT && SD_EAGAIN) ==> (SD_LQ_OVER ? (self->_config.closeOnBackpressure ? (SD_CLOSED_ONCE(TransportError_WriteBackpressure) && L0->wq.lo == P0.lq_lo) : (SD_ALIVE && L0->wq.lo == P0.lq_lo + 1)) : (SD_ALIVE && L0->wq.lo == P0.lq_lo)))
 /* SD5e write interest armed while something is queued (no lost re-arm) */ __CPROVER_ensures((SD_SENT && !SD_CLIENT && SD_EAGAIN) ==> (L0->wantWrite && G_modEpoll_fd == L0->fd && (L0->wq.lo < L0->wq.hi ==> (G_modEpoll_ev & EPOLLOUT) != 0)))
-/* SD5f listener queue only grows on that path */ __CPROVER_ensures(!(SD_SENT && !SD_CLIENT && SD_EAGAIN) ==> (L0->wq.hi == __CPROVER_old(self->_listeners.val->wq.hi) && L0->wq.lo == __CPROVER_old(self->_listeners.val->wq.lo)))
-/* SD6a EAGAIN on a connected client, no overflow close: queued as exactly ONE element, whole payload */ __CPROVER_ensures((SD_SENT && SD_CLIENT && SD_EAGAIN && SD_ALIVE) ==> (S0->wq.hi == __CPROVER_old(self->_sessions.val->wq.hi) + 1 && (GQ == __CPROVER_old(self->_sessions.val->wq.hi) ==> (S0->wq.w.p == SD_P0 && S0->wq.w.n == SD_N0)) && (GQ != __CPROVER_old(self->_sessions.val->wq.hi) ==> (S0->wq.w.p == __CPROVER_old(self->_sessions.val->wq.w.p) && S0->wq.w.n == __CPROVER_old(self->_sessions.val->wq.w.n)))))
-/* SD6b overflow policy on the client queue */ __CPROVER_ensures((SD_SENT && SD_CLIENT && SD_EAGAIN) ==> (SD_CQ_OVER ? (self->_config.closeOnBackpressure ? SD_CLOSED_ONCE(TransportError_WriteBackpressure) : (SD_ALIVE && S0->wq.lo == __CPROVER_old(self->_sessions.val->wq.lo) + 1)) : (SD_ALIVE && S0->wq.lo == __CPROVER_old(self->_sessions.val->wq.lo))))
+/* SD5f listener queue only grows on that path */ __CPROVER_ensures(!(SD_SENT && !SD_CLIENT && SD_EAGAIN) ==> (L0->wq.hi == P0.lq_hi && L0->wq.lo == P0.lq_lo))
+/* SD6a EAGAIN on a connected client, no overflow close: queued as exactly ONE element, whole payload */ __CPROVER_ensures((SD_SENT && SD_CLIENT && SD_EAGAIN && SD_ALIVE) ==> (S0->wq.hi == P0.cq_hi + 1 && (GQ == P0.cq_hi ==> (S0->wq.w.p == SD_P0 && S0->wq.w.n == SD_N0)) && (GQ != P0.cq_hi ==> (S0->wq.w.p == P0.cq_w_p && S0->wq.w.n == P0.cq_w_n))))
+/* SD6b overflow policy on the client queue */ __CPROVER_ensures((SD_SENT && SD_CLIENT && SD_EAGAIN) ==> (SD_CQ_OVER ? (self->_config.closeOnBackpressure ? SD_CLOSED_ONCE(TransportError_WriteBackpressure) : (SD_ALIVE && S0->wq.lo == P0.cq_lo + 1)) : (SD_ALIVE && S0->wq.lo == P0.cq_lo)))
 /* SD6c write interest armed */ __CPROVER_ensures((SD_SENT && SD_CLIENT && SD_EAGAIN && SD_ALIVE) ==> (S0->wantWrite && G_modEpoll_fd == S0->fd && (S0->wq.lo < S0->wq.hi ==> (G_modEpoll_ev & EPOLLOUT) != 0)))
 /* SD7 hard socket error: the session is closed exactly once, nothing is queued */ __CPROVER_ensures((SD_SENT && SD_HARD) ==> SD_CLOSED_ONCE(TransportError_Socket))
-/* SD8 no close on any other path */ __CPROVER_ensures((SD_SENT && !SD_HARD && !(SD_EAGAIN && self->_config.closeOnBackpressure && (SD_CLIENT ? SD_CQ_OVER : SD_LQ_OVER))) ==> (SD_ALIVE && G_closeCb_calls == __CPROVER_old(G_closeCb_calls)))
+/* SD8 no close on any other path */ __CPROVER_ensures((SD_SENT && !SD_HARD && !(SD_EAGAIN && self->_config.closeOnBackpressure && (SD_CLIENT ? SD_CQ_OVER : SD_LQ_OVER))) ==> (SD_ALIVE && G_closeCb_calls == P0.cb_calls))
 /* L1 no lock left held */ __CPROVER_ensures(IORA_NO_LOCK_HELD(self))
 ;
 void h_sendDo(void)
